@@ -200,7 +200,8 @@ def load_scene(
     try:
         if isinstance(file_obj, dict):
             # we've been passed a dictionary so treat them as keyword arguments
-            loaded = _load_kwargs(file_obj)
+            # passed arguments like `process=False` apply as they do for a file
+            loaded = _load_kwargs({**kwargs, **file_obj})
         elif arg.file_type in path_formats():
             # use path loader
             loaded = load_path(
@@ -457,7 +458,8 @@ def _load_kwargs(*args, **kwargs) -> Geometry:
         """
         # if they've been serialized as a dict
         if isinstance(kwargs["vertices"], dict) or isinstance(kwargs["faces"], dict):
-            return Trimesh(**misc.load_dict(kwargs))
+            # decode the arrays and keep the other arguments, i.e. `process`
+            return Trimesh(**{**kwargs, **misc.load_dict(kwargs)})
         # otherwise just load that puppy
         return Trimesh(**kwargs)
 
